@@ -1,8 +1,7 @@
 /-
 Wrapping decoder (C01, release build), part 7: the repository's own READ path on the encoder's frames —
 `Frame::write`, then `parser::frame` (C15), then `Frame::decode()` of the release build — returns the
-interleaved input, for every oracle log satisfying `OEvent.Ok` (LPC orders within the parser's limit 24),
-WITHOUT `FrameFits`.
+interleaved input, for every oracle log satisfying `OEvent.Ok` (LPC orders within the parser's limit 24).
 -/
 import FlacVerif.Lemmas.WrapGood
 import FlacVerif.Lemmas.CountFrame
@@ -42,7 +41,7 @@ theorem frame_good_assemble (asg : ChannelAssignment) (hasg : ChOk asg) (subs : 
   exact ⟨fb, h1, h2⟩
 
 /-- Every frame `encode_frame` returns is serialisable and within the limits of the repository's own
-parser — no `FrameFits`. -/
+parser. -/
 theorem frame_good (cfg : SubCfg) (st : StereoCfg) (chans : List (List Int)) (bps rate number n : Nat)
     (log log' : List OEvent) (f : Frame)
     (hch : 1 ≤ chans.length ∧ chans.length ≤ 8) (hlen : ∀ c ∈ chans, c.length = n) (hn : 1 ≤ n ∧ n < 2 ^ 16)
